@@ -75,6 +75,13 @@ def r2(ctx):
             te, fe = call_guard_edges(fb, "turmoil::net::tcp::stream::FlowControl::try_acquire")
             edges += [(fb.id, e) for e in te]
         ok = bool(edges) and dominated_in_family(ctx.w, b, bb, edges=edges)
+        sh_f = []
+        for fb in fam:
+            for sbb, te2, fe2, o in guards_on(fb, lambda o: o["k"] == "place" and place_has_field(o["p"], "turmoil::net::tcp::stream::WriteHalf::is_shutdown")):
+                sh_f += [(fb.id, e) for e in fe2]
+        ok_sh = bool(sh_f) and dominated_in_family(ctx.w, b, bb, edges=sh_f)
+        ctx.inst(R, k + ":not-after-shutdown", ok_sh, s["s"], "no Data segment once the write half is shut down" if ok_sh else
+                 "Segment::Data can be sent although the write half is shut down: the bytes are sequenced behind the FIN, accepted and silently discarded by the peer")
         ctx.inst(R, k, ok, s["s"], "Data segment built behind a successful try_acquire" if ok else
                  "Segment::Data is constructed on a path that did not acquire a flow-control credit: the bounded receive queue can overflow and data is dropped")
     # writer without credit
@@ -115,7 +122,7 @@ def r2(ctx):
         ok = any(c is not None and c.get("v") == 1 for _, _, _, c in wr)
         ctx.inst(R, "poll_shutdown_priv:marks-shutdown", ok, ps.span, "shutdown records is_shutdown = true" if ok else
                  "poll_shutdown_priv no longer records is_shutdown = true: Drop will send a second FIN")
-    ctx.floor(R, 5)
+    ctx.floor(R, 6)
 
 
 def r3(ctx):
@@ -301,6 +308,8 @@ def r7(ctx):
 
 
 def run(ctx):
+    from . import C03
+    C03.r7(ctx, ops=("hold", "release"), R="C02-R9")    # a released link is healthy again in both directions (bytes keep flowing after hold / release)
     r7(ctx)
     r1(ctx)
     r2(ctx)
